@@ -2616,3 +2616,93 @@ def native_replay(unit, ob):
     return dict(reproduced=o2.status == "refuted", adapter="native (CPython call of the real function on the counter-model, postcondition decided on the real result)",
                 input=dict(args=[repr(a) for a in rargs], kwargs={k: repr(v) for k, v in rkw.items()}),
                 detail=f"the real function {ex.native_result[0]}s {ex.native_result[1]}; obligation {ob.oid} on that result: {o2.status}")
+
+
+# ---------------------------------------------------------------------------
+# locals by role, not by name: contracts refer to "the first target of loop 1" or "the local the loop carries", so that a
+# renamed local does not detach the contract from the code
+
+
+def _fi_loops(fi):
+    if not hasattr(fi, "_loops"):
+        loops = [n for n in _walk_own(fi.node) if isinstance(n, (ast.For, ast.While))]
+        loops.sort(key=lambda n: (n.lineno, n.col_offset))
+        fi._loops = loops
+    return fi._loops
+
+
+def loop_targets(fi, ordn):
+    """names bound by the target of the ordn-th loop of the function, in source order (`for l, line in ...` -> ['l', 'line'])"""
+    loops = _fi_loops(fi)
+    if ordn >= len(loops) or not isinstance(loops[ordn], ast.For):
+        raise Unsupported(f"{fi.qualname} has no for-loop #{ordn}: the loop structure of the function changed")
+    names = [n for n in ast.walk(loops[ordn].target) if isinstance(n, ast.Name)]
+    names.sort(key=lambda n: (n.lineno, n.col_offset))
+    return [n.id for n in names]
+
+
+def loop_carried(fi, ordn):
+    """names of plain locals that are assigned inside the ordn-th loop and also before it (loop-carried state other than
+    the loop targets), in order of first assignment"""
+    loops = _fi_loops(fi)
+    if ordn >= len(loops):
+        raise Unsupported(f"{fi.qualname} has no loop #{ordn}: the loop structure of the function changed")
+    lp = loops[ordn]
+    tg = set(loop_targets(fi, ordn)) if isinstance(lp, ast.For) else set()
+
+    def stores(nodes):
+        out = []
+        for st in nodes:
+            for n in ast.walk(st):
+                if isinstance(n, ast.Name) and isinstance(n.ctx, ast.Store) and n.id not in out:
+                    out.append((n.lineno, n.col_offset, n.id))
+        out.sort()
+        seen, res = set(), []
+        for _, _, nm in out:
+            if nm not in seen:
+                seen.add(nm)
+                res.append(nm)
+        return res
+
+    inside = stores(lp.body + lp.orelse)
+    before = [nm for nm in stores([s for s in _walk_own(fi.node) if isinstance(s, ast.stmt) and (s.lineno, s.col_offset) < (lp.lineno, lp.col_offset)
+                                   and not any(s is x or _contains(x, s) for x in [lp])])]
+    return [nm for nm in before if nm in inside and nm not in tg]
+
+
+def _contains(outer, inner):
+    return any(n is inner for n in ast.walk(outer))
+
+
+def assigned_from(fi, callee, nth=0):
+    """name of the nth local (source order) assigned directly from a call to `callee` (`x = callee(...)`, also annotated)"""
+    hits = []
+    for n in _walk_own(fi.node):
+        tgt, val = None, None
+        if isinstance(n, ast.Assign) and len(n.targets) == 1 and isinstance(n.targets[0], ast.Name):
+            tgt, val = n.targets[0], n.value
+        elif isinstance(n, ast.AnnAssign) and isinstance(n.target, ast.Name) and n.value is not None:
+            tgt, val = n.target, n.value
+        if tgt is None or not isinstance(val, ast.Call):
+            continue
+        f = val.func
+        nm = f.id if isinstance(f, ast.Name) else f.attr if isinstance(f, ast.Attribute) else None
+        if nm == callee:
+            hits.append((n.lineno, n.col_offset, tgt.id))
+    hits.sort()
+    if nth >= len(hits):
+        raise Unsupported(f"{fi.qualname}: no local #{nth} assigned from {callee}(...): the function changed")
+    return hits[nth][2]
+
+
+def first_assigned(fi, nth=0):
+    """name of the nth local assigned by a top-level `x = ...` statement of the function body (source order)"""
+    hits = []
+    for n in fi.node.body:
+        if isinstance(n, ast.Assign) and len(n.targets) == 1 and isinstance(n.targets[0], ast.Name):
+            hits.append(n.targets[0].id)
+        elif isinstance(n, ast.AnnAssign) and isinstance(n.target, ast.Name) and n.value is not None:
+            hits.append(n.target.id)
+    if nth >= len(hits):
+        raise Unsupported(f"{fi.qualname}: no top-level assignment #{nth}: the function changed")
+    return hits[nth]
